@@ -1065,6 +1065,26 @@ def generate(repo):
            'def tiltDesignHasConstant : Bool := false\ndef powerDesignHasConstant : Bool := true\n'
            'def removedSurfacesAreFittedColumns : Bool := true')
 
+    def lstsq_orders():
+        """polynomials.lstsq (tilt fit, pvr) and fit_sphere select the valid samples of the data and of the modes in the SAME
+        (logical, row-major) order: no flattening with an explicit memory-order argument other than 'C'"""
+        seen = 0
+        for fn in (get_def(pol, 'lstsq'), get_def(ig, 'fit_sphere'), get_def(ig, 'fit_plane')):
+            for n in ast.walk(fn):
+                if isinstance(n, ast.Call) and isinstance(n.func, ast.Attribute) and n.func.attr in ('ravel', 'flatten', 'reshape', 'flat'):
+                    seen += 1
+                    for k in n.keywords:
+                        if k.arg == 'order' and not (isinstance(k.value, ast.Constant) and k.value.value == 'C'):
+                            return False
+                    if n.func.attr in ('ravel', 'flatten') and n.args and not (isinstance(n.args[0], ast.Constant) and n.args[0].value == 'C'):
+                        return False
+                if isinstance(n, ast.Call) and ast.unparse(n.func) in ('np.ravel', 'np.reshape'):
+                    seen += 1
+                    if any(k.arg == 'order' and not (isinstance(k.value, ast.Constant) and k.value.value == 'C') for k in n.keywords):
+                        return False
+        return True if seen else None
+    g.fact('fitsFlattenInLogicalOrder', 'prysm/polynomials/__init__.py:lstsq; prysm/interferogram.py:fit_plane,fit_sphere', lstsq_orders)
+
     g.fact('settersTrivial', 'prysm/_richdata.py:RichData.{x,y,r,t}.setter', lambda: setters_trivial(info))
     text, items = g.finish()
     return text, items
